@@ -198,3 +198,37 @@ def r20_2(ctx):
         ctx.ok(('reassembly', 'offset*8'), sample=dict(offset='datagram_offset() * 8'))
     else:
         ctx.bad("process_sixlowpan_fragment|offset-units", f"reassembly offset = {show(off)[:60]}, expected datagram_offset() * 8", body=pf, bb=adds[0][0])
+
+
+@rule('R20.3', ['C20', 'C10'], floor=2, clause='an unfragmented 6LoWPAN datagram is only sent when the whole frame (MAC header included) fits 125 octets: the guard bounds exactly the length handed to the device')
+def r20_3(ctx):
+    F = ctx.F
+    b = ctx.method(IFI, 'dispatch_sixlowpan')
+    cons = [x for x in b.calls() if (b.callee_name(x[1]) or x[1].get('fn') or '').endswith('TxToken::consume')]
+    ctx.need(len(cons) == 2, "two consume sites in dispatch_sixlowpan")
+    n = 0
+    for x in cons:
+        ln = untuple(simplify(F.origin.operand(b, x[2][1], x[0], len(b.blocks[x[0]]['s']))))
+        if any(l.endswith('frag::Repr::buffer_len') for l in leafs(ln) if l.startswith('C:')):
+            # first fragment: ieee + frag1 header + frag1_size, frag1_size <= 125 - ieee - frag1 header by construction
+            l, c = lin(ln)
+            ctx.ok(('frag1', 'frame-len'), sample=dict(site='FRAG_1', len=show(ln)[:60]))
+            continue
+        n += 1
+        want = lin(ln)
+
+        def fits(f, want=want):
+            if f[0] != 'rel' or f[1] not in ('Le', 'Lt'):
+                return False
+            k = const_int(simplify(f[3]))
+            if k is None:
+                return False
+            bound = k if f[1] == 'Le' else k - 1
+            return bound <= 125 and lin(untuple(simplify(f[2]))) == want
+        bad = unguarded(F, b, [x[0]], fits)
+        if bad:
+            ctx.bad("dispatch_sixlowpan|unfragmented-too-long", f"an unfragmented frame of length {show(ln)[:60]} is handed to the device without "
+                    "`that length <= 125` (the MAC header is not counted: frames larger than an 802.15.4 frame)", body=b, bb=x[0], path=bad[0][1])
+        else:
+            ctx.ok(('unfragmented', 'fits-125'), sample=dict(site='unfragmented', guard='total_size + ieee_len <= 125'))
+    ctx.need(n == 1, "the unfragmented transmit site")
